@@ -1,6 +1,7 @@
 """Shared machinery for ./check: building, regenerating, auditing proofs, running the
 correspondence, deciding, and writing evidence.  Python 3 stdlib only."""
 import fcntl
+import threading
 import hashlib
 import json
 import os
@@ -48,20 +49,38 @@ def sh(cmd, cwd=None, env=None, timeout=None, input=None):
 
 
 class Lock:
-    """Serialises build steps between concurrently running checks."""
+    """Serialises build steps between concurrently running checks (several checks may be started in parallel in
+    the same /verif).  Everything that writes or reads the Lean tree — the regenerators (`regen*`) and `lake` —
+    shares ONE lock, so that no check ever builds while another rewrites a generated file; Go binaries have one
+    lock each.  Re-entrant within a process (threads included)."""
+
+    _state = {}          # path -> [threading.RLock, depth, file]
+    _guard = threading.Lock()
 
     def __init__(self, name):
         os.makedirs(BUILD, exist_ok=True)
+        if name == "lake" or name.startswith("regen"):
+            name = "leantree"
         self.path = os.path.join(BUILD, name + ".lock")
 
     def __enter__(self):
-        self.f = open(self.path, "w")
-        fcntl.flock(self.f, fcntl.LOCK_EX)
+        with Lock._guard:
+            st = Lock._state.setdefault(self.path, [threading.RLock(), 0, None])
+        st[0].acquire()
+        if st[1] == 0:
+            st[2] = open(self.path, "w")
+            fcntl.flock(st[2], fcntl.LOCK_EX)
+        st[1] += 1
         return self
 
     def __exit__(self, *a):
-        fcntl.flock(self.f, fcntl.LOCK_UN)
-        self.f.close()
+        st = Lock._state[self.path]
+        st[1] -= 1
+        if st[1] == 0:
+            fcntl.flock(st[2], fcntl.LOCK_UN)
+            st[2].close()
+            st[2] = None
+        st[0].release()
 
 
 class Violation:
@@ -126,7 +145,8 @@ def build_go(name, pkgdir, tags=("verif",), race=False, module="harness"):
     moddir = os.path.join(ROOT, module)
     if module == "harness":
         sync_gosum()
-    cmd = ["go", "build", "-ldflags=" + LDFLAGS, "-o", out]
+    tmp = out + ".new.%d" % os.getpid()
+    cmd = ["go", "build", "-ldflags=" + LDFLAGS, "-o", tmp]
     if REPO != "/repo" and module == "harness":
         # mutation trials: build against another tree (VERIF_REPO) without touching /repo or go.mod
         alt = os.path.join(BUILD, "harness.alt.mod")
@@ -143,9 +163,17 @@ def build_go(name, pkgdir, tags=("verif",), race=False, module="harness"):
         cmd += ["-race"]
     cmd += ["./" + pkgdir]
     with Lock("go-" + name):
-        if os.path.exists(out):
-            os.remove(out)
+        # built next to the target and renamed over it: a check running in parallel (C01/C11 and C05/C06/C07
+        # share a harness) never finds the binary missing or half written
         rc, o = sh(cmd, cwd=moddir, env=GOENV, timeout=900)
+        if rc == 0:
+            os.replace(tmp, out)
+        else:
+            for f in (tmp, out):     # a tree that no longer builds must not leave a stale binary behind
+                try:
+                    os.remove(f)
+                except OSError:
+                    pass
     if rc != 0:
         raise BuildError("go build %s failed:\n%s" % (name, o))
     return out
@@ -369,7 +397,8 @@ def prove(ctx, allowed_extra_axioms=()):
               "".join("#audit_module %s\n" % m for _, m, _ in built)
         if not os.path.exists(afile) or open(afile).read() != txt:
             open(afile, "w").write(txt)
-        rc, out = sh(["lake", "env", "lean", os.path.join("GoluaVerif", "AuditRun", prop + ".lean")], cwd=LEAN, timeout=1800)
+        with Lock("lake"):   # reads the .olean files another check's build may be replacing
+            rc, out = sh(["lake", "env", "lean", os.path.join("GoluaVerif", "AuditRun", prop + ".lean")], cwd=LEAN, timeout=1800)
         seen = {}
         for m in re.finditer(r"AUDIT (\S+) \[(.*)\]\s*$", out, re.M):
             ax = [a.strip() for a in m.group(2).split(",") if a.strip()]
@@ -398,7 +427,8 @@ def prove(ctx, allowed_extra_axioms=()):
         ctx.obligations.append({"name": "no_sorry_axiom_native_decide_scan", "ok": True, "axioms": [], "note": "grep over lean/**/*.lean"})
     if ctx.tier == "thorough":
         for stem, module, names in built:
-            rc, out = sh(["lake", "env", "leanchecker", module], cwd=LEAN, timeout=3000)
+            with Lock("lake"):
+                rc, out = sh(["lake", "env", "leanchecker", module], cwd=LEAN, timeout=3000)
             ctx.obligations.append({"name": "leanchecker_" + stem, "ok": rc == 0, "axioms": [],
                                     "note": out[-300:] if rc else "independent re-check of the .olean"})
             if rc != 0:
